@@ -1,4 +1,5 @@
 # SPDX-License-Identifier: MIT
+import struct
 import warnings
 from dataclasses import dataclass, field
 from typing import TYPE_CHECKING, Dict, List, Optional, Tuple
@@ -221,6 +222,19 @@ class EncodeState:
                 bit_length = 64
 
             raw_value = float(internal_value)
+
+            if base_data_type == DataType.A_FLOAT32:
+                # make sure that the value can be represented using
+                # single precision. (The accelerated version of the
+                # bitstruct module silently converts values which are
+                # too large to infinity while the pure python version
+                # raises an OverflowError.)
+                try:
+                    struct.pack(">f", raw_value)
+                except OverflowError:
+                    odxraise(
+                        f"The value '{internal_value!r}' cannot be encoded using "
+                        f"{bit_length} bits.", EncodeError)
 
         # If the bit length is zero, encode an empty value
         if bit_length == 0:
